@@ -5,9 +5,8 @@
    Two levels.  (1) The bit buffer of the C code -- bytes written so far, `lastbits`, `lastbyte` -- is
    transcribed literally ([cbuf], [c_encodebits], [c_flush], [c_decodebits]).  (2) The frame codec is written
    over the abstraction "a list of bits, most significant first" ([bits_of]/[get_bits]); XtcBitsProofs.v shows
-   that c_encodebits / c_flush implement exactly this abstraction.  c_decodebits is a transcription only: it
-   is not used by the frame decoder below and its refinement is not proved (the frame decoder is validated
-   by reading the files mdtraj writes).
+   that c_encodebits / c_flush / c_decodebits implement exactly this abstraction (unmasked ORs and the 32-bit
+   truncation of lastbyte included).
    The multi-byte arithmetic of encodeints/decodeints/sizeofints (bytes[32] with carries) is modelled by
    arithmetic on Z; sizes are < 2^24 on this path (checked by the caller in the C code), so no 32-bit
    carry overflows.  `tmpsum` wraps at 32 bits as in the compiled code.  Out-of-bounds reads of magicints[]
